@@ -114,13 +114,21 @@ enum PKind {
     /// like IssueOtherKey, sent while the key's owner is suspended at the
     /// parent (its certificate is then kept aside, not among the issued ones)
     IssueOtherKeySuspended,
+    /// revocation of the sender's own certified key under a class name the
+    /// parent does not have
+    RevokeOwnBadClass,
+    /// a list request while the claimed sender is suspended at the parent:
+    /// an authentic one un-suspends the child, any other must leave it as
+    /// it is
+    ListSuspended,
 }
 
-const PKINDS: [PKind; 11] = [
+const PKINDS: [PKind; 13] = [
     PKind::List, PKind::ListForeignRecipient, PKind::Issue,
     PKind::IssueLimitSubset, PKind::IssueLimitOutside, PKind::IssueBadClass,
     PKind::IssueOtherKey, PKind::RevokeOther, PKind::RevokeOwn,
-    PKind::Reissue, PKind::IssueOtherKeySuspended,
+    PKind::Reissue, PKind::IssueOtherKeySuspended, PKind::RevokeOwnBadClass,
+    PKind::ListSuspended,
 ];
 
 impl PKind {
@@ -137,6 +145,8 @@ impl PKind {
             PKind::RevokeOwn => "revoke-own-key",
             PKind::Reissue => "reissue",
             PKind::IssueOtherKeySuspended => "issue-suspended-childs-key",
+            PKind::RevokeOwnBadClass => "revoke-own-key-unknown-class",
+            PKind::ListSuspended => "list-while-suspended",
         }
     }
     fn other_key(self) -> bool {
@@ -756,7 +766,7 @@ impl H {
             ))
         };
         match kind {
-            PKind::List => {
+            PKind::List | PKind::ListSuspended => {
                 Ok((provisioning::Message::list(s, rcp(ca)), None, None))
             }
             PKind::ListForeignRecipient => {
@@ -787,6 +797,12 @@ impl H {
             PKind::RevokeOwn => Ok((
                 provisioning::Message::revoke(
                     s, rcp(ca), RevocationRequest::new(class, own)
+                ), None, Some(own)
+            )),
+            PKind::RevokeOwnBadClass => Ok((
+                provisioning::Message::revoke(
+                    s, rcp(ca), RevocationRequest::new(
+                        ResourceClassName::from("no-such-class"), own)
                 ), None, Some(own)
             )),
         }
@@ -918,7 +934,14 @@ impl H {
         };
         let owner_before = reduce(&self.child_view(
             ca, owner, &self.w.publisher_files()));
-        if kind == PKind::IssueOtherKeySuspended
+        // whom to suspend before the request is sent
+        let target = match kind {
+            PKind::IssueOtherKeySuspended => Some(owner),
+            PKind::ListSuspended => Some(sender),
+            _ => None,
+        };
+        let owner = target.unwrap_or(owner);
+        if target.is_some()
             && self.reg_child.contains_key(&(ca.to_string(), owner.to_string()))
         {
             match self.w.suspend_child(ca, owner, true) {
@@ -1210,7 +1233,8 @@ impl H {
                 }
                 r.count("issued_certs_checked", 1);
             }
-            (PKind::RevokeOwn, Some(Payload::RevokeResponse(_))) => {
+            (PKind::RevokeOwn | PKind::RevokeOwnBadClass,
+             Some(Payload::RevokeResponse(_))) => {
                 let still = post["views"][format!("{ca}:{sender}")]["classes"]
                     .as_array().map(|cl| cl.iter().any(|c| {
                         c["certs"].as_array().map(|cs| cs.iter().any(|x| {
@@ -1219,7 +1243,16 @@ impl H {
                         })).unwrap_or(false)
                     })).unwrap_or(false);
                 if still {
+                    // "a revocation request that the parent answers
+                    // positively always has this effect"
                     r.count("revoke_own_without_effect", 1);
+                    self.viol(r,
+                        &format!("rfc6492:revocation-acknowledged-without-effect:{}",
+                                 kind.s()),
+                        format!("{sender} at {ca}: revoke response received, \
+                                 but the certificate for the key is still \
+                                 issued and published"),
+                        &case, obs(&res));
                 }
                 r.count("revocations_checked", 1);
             }
@@ -1275,7 +1308,9 @@ impl H {
             let owner_after = reduce(&self.child_view(
                 ca, owner, &self.w.publisher_files()));
             r.eval();
-            if a.is_ok() && owner_after != owner_before {
+            if kind == PKind::IssueOtherKeySuspended && a.is_ok()
+                && owner_after != owner_before
+            {
                 self.viol(r,
                     "rfc6492:suspended-sibling-certificate-taken-over",
                     format!("{owner} held {owner_before:?} at {ca} before it \
@@ -1284,8 +1319,10 @@ impl H {
                              {owner_after:?}"),
                     &case, json!({"kind": kind.s()}));
             }
+            // (a child that called in itself is active again already)
+            let a_ok = a.is_ok() || kind == PKind::ListSuspended;
             let b = self.legit_prov(PKind::Issue, owner, ca).map(|_| ());
-            if a.is_err() || b.is_err() {
+            if !a_ok || b.is_err() {
                 r.inconclusive("could not restore the base line after the \
                                 owner's suspension");
                 self.dead = true;
